@@ -18,7 +18,7 @@ RULE = ("(a) schedules (source-line granularity) of {accept thread submitting 2-
 ASSUMPTIONS = ["scheduling points are source lines of Pool/Worker methods and the job body; CPython can also switch between bytecodes of one line",
                "a job accepted just before a racing close() may be dropped (the statement's 'starts no further job'); only runs without close require every accepted job to run",
                "a refusal is illegitimate only if accepted-minus-completed(notify_done returned) < THREADPOOL_SIZE at process() entry"]
-REQUIRED_REACH = ["schedules_explored", "jobs_executed", "refusals_seen", "closes_completed", "socket_clients_served", "socket_clients_refused", "unix_socket_runs", "proxy_retries_after_refusal", "start_faults_injected", "workers_killed_by_exiting_jobs", "full_pool_refusals_checked"]
+REQUIRED_REACH = ["hook_connections_to_sibling_daemon_served", "schedules_explored", "jobs_executed", "refusals_seen", "closes_completed", "socket_clients_served", "socket_clients_refused", "unix_socket_runs", "proxy_retries_after_refusal", "start_faults_injected", "workers_killed_by_exiting_jobs", "full_pool_refusals_checked"]
 SHARD_TIMEOUT = {"quick": 240, "thorough": 3000}
 
 
@@ -451,6 +451,83 @@ def socket_run(P, rec, r, size, nclients, inject, unix=False):
         fx.stop()
 
 
+def two_daemons_phase(P, rec, r):
+    """Two thread-pool daemons in one process, the way a server that is also somebody else's client looks: daemon A's connection hooks
+    (handshake validator, disconnect hook) report to an accounting object served by daemon B. B is idle and has free workers all the time,
+    so every connection it accepts is served - whoever opens it, from whatever thread."""
+    fxb = fixture.Fixture(servertype="thread", COMMTIMEOUT=0.0, THREADPOOL_SIZE=12, THREADPOOL_SIZE_MIN=2)
+    fxa = fixture.Fixture(servertype="thread", COMMTIMEOUT=0.0, THREADPOOL_SIZE=12, THREADPOOL_SIZE_MIN=2)
+    notes, outcomes, lock = [], [], threading.Lock()
+
+    @P.server.expose
+    class Accounting(object):
+        def note(self, what):
+            with lock:
+                notes.append(what)
+            return len(notes)
+
+    @P.server.expose
+    class Svc(object):
+        def ping(self):
+            return "pong"
+    fxb.register(Accounting(), "acct")
+    fxa.register(Svc(), "svc")
+
+    def report(what):
+        t0 = time.monotonic()
+        try:
+            with fxb.proxy("acct", serializer="marshal", timeout=12.0) as p:
+                p.note(what)
+            res = ("ok", None)
+        except Exception as x:
+            res = ("failed", repr(x))
+        with lock:
+            outcomes.append((what, res[0], res[1], round(time.monotonic() - t0, 2)))
+
+    def validator(conn, data):
+        report("hello")
+        return "welcome"
+    fxa.daemon.hs_validator = validator
+    fxa.daemon.on_disconnect = lambda conn: report("bye")
+    nclients = 6
+    pay = {"two_daemons": True}
+    rec.case(("two-daemons", nclients), nontrivial=True, sample=pay)
+    errors = []
+
+    def client(i):
+        try:
+            with fxa.proxy("svc", serializer="marshal", timeout=40.0) as p:
+                for _ in range(2):
+                    if p.ping() != "pong":
+                        errors.append("wrong answer")
+        except Exception as x:
+            errors.append(repr(x))
+    try:
+        ts = [threading.Thread(target=client, args=(i,), daemon=True) for i in range(nclients)]
+        for t in ts:
+            t.start()
+        for t in ts:
+            t.join(60)
+        fxa.wait_until(lambda: len(outcomes) >= 2 * nclients, 45.0)
+        with lock:
+            out = list(outcomes)
+        bad = [o for o in out if o[1] != "ok"]
+        if bad or len(out) < 2 * nclients:
+            rec.violation("accepted-connection-left-waiting", "a second, idle thread-pool daemon in the same process (12 workers) did not serve connections opened from the first "
+                          "daemon's connection hooks: %d of %d reports arrived; failures: %r; client errors: %r" % (len(out) - len(bad), 2 * nclients, bad[:3], errors[:2]), pay)
+            return
+        if errors:
+            rec.inconc("two-daemons phase: client failed in the harness: %r" % errors[:2])
+            return
+        rec.count("hook_connections_to_sibling_daemon_served", len(out))
+    finally:
+        for f in (fxa, fxb):
+            try:
+                f.stop()
+            except Exception:
+                pass
+
+
 def plan(tier, seed):
     shards = []
     cfgs = []
@@ -499,6 +576,8 @@ def run_shard(shard, rec):
         cfg = dict(shard["cfg"], max_runs=shard["max_runs"])
         explore(P, cfg, shard["bound"], shard["nrandom"], shard["npct"], rec, r)
         return
+    if shard["i"] == 0:
+        two_daemons_phase(P, rec, r)
     for run in range(shard["runs"]):
         if rec.should_stop(6):
             break
@@ -510,6 +589,9 @@ def replay(payload, rec):
     P = fixture.pyro()
     import Pyro5.svr_threads
     P.svr_threads = Pyro5.svr_threads
+    if payload.get("two_daemons"):
+        two_daemons_phase(P, rec, gen.rng(0, "replay"))
+        return
     if payload.get("socket"):
         socket_run(P, rec, gen.rng(0, "replay"), payload["size"], payload["nclients"], True, unix=payload.get("unix", False))
         return
